@@ -13,8 +13,13 @@ def compile_line(demo_src, default):
     m = re.search(r"((?:gcc|clang)[^\n*]*demo\w*\.c[^\n*]*)", txt)
     return m.group(1).strip() if m else default
 
+BASE = os.environ.get("SEED_BASE", "/tmp/seed")
+KOFF = int(os.environ.get("K_OFFSET", "0"))
+
+
 def main(pid, k, srcdir):
     patch = os.path.join(srcdir, "patch%s.diff" % k); demo = os.path.join(srcdir, "demo%s.c" % k)
+    kout = str(int(k) + KOFF)
     if not (os.path.exists(patch) and os.path.exists(demo)):
         print(pid, k, "missing files"); return False
     wt = "/tmp/vseed_%s_%s" % (pid, k)
@@ -57,7 +62,7 @@ def main(pid, k, srcdir):
         log["confirmed"] = ok
         print(pid, k, "CONFIRMED" if ok else "REJECTED", log)
         if ok:
-            dst = "/verif/seeded/%s-%s" % (pid, k); os.makedirs(dst, exist_ok=True)
+            dst = "/verif/seeded/%s-%s" % (pid, kout); os.makedirs(dst, exist_ok=True)
             shutil.copy(patch, os.path.join(dst, "patch.diff")); shutil.copy(demo, os.path.join(dst, "demo.c"))
             notes = os.path.join(srcdir, "notes.md")
             if os.path.exists(notes): shutil.copy(notes, os.path.join(dst, "agent_notes.md"))
@@ -74,10 +79,10 @@ def main(pid, k, srcdir):
         sh("git -C /repo worktree remove --force %s" % wt); shutil.rmtree(wt, ignore_errors=True)
 
 if __name__ == "__main__":
-    ids = sys.argv[1:] or sorted(os.path.basename(p) for p in glob.glob("/tmp/seed/C*"))
+    ids = sys.argv[1:] or sorted(os.path.basename(p) for p in glob.glob(BASE + "/C*"))
     for pid in ids:
         for k in ("1", "2"):
-            d = "/tmp/seed/%s/seed_out" % pid
-            if os.path.exists(os.path.join(d, "patch%s.diff" % k)) and not os.path.exists("/verif/seeded/%s-%s/meta.json" % (pid, k)):
+            d = "%s/%s/seed_out" % (BASE, pid)
+            if os.path.exists(os.path.join(d, "patch%s.diff" % k)) and not os.path.exists("/verif/seeded/%s-%s/meta.json" % (pid, int(k) + KOFF)):
                 try: main(pid, k, d)
                 except Exception as e: print(pid, k, "error", e)
